@@ -1,5 +1,6 @@
 import Nstd.Common.Basic
 import Nstd.Future.Model
+import Std.Data.HashSet
 /-
   Line protocol of the Future area (replay of a controlled-scheduler trace on the model).
     cfg q=<n> min=<n> max=<n> lazy=<0|1> tick=<ms> sp=<n> rep=<0|1> | <client ops> | <client ops> ...
@@ -7,6 +8,7 @@ import Nstd.Future.Model
     S <tid>      -> `S <tid> en=<enabled threads>` + the O/E/X lines of that scheduler step (macroStep)
     V            -> [`D <blocked threads>`] `V <DONE|DEADLOCK|RUNNING> steps=<n>`
     F            -> final summary line (same fields as the harness prints)
+    X <max states> <cfg fields and scripts as for cfg>  -> exhaustive micro-step exploration of the model (test)
     M            -> `M <t,t,...>`: the schedule of MICRO-steps executed so far (for `runSched`)
   The output has the format of the harness trace, so the two streams are compared verbatim.
 -/
@@ -135,6 +137,95 @@ def runOnCount : Nat → State → Tid → Nat → Nat
         | none => n
     | _ => n
 
+/-! ### exhaustive exploration of the model (a TEST of small configurations at micro-step granularity, i.e. with
+     every plain shared read interleaved separately — finer than the implementation runs can be scheduled) -/
+
+deriving instance Hashable for RingPc
+deriving instance Hashable for ClientOp
+deriving instance Hashable for Frame
+
+def hashList {β : Type} [Hashable β] (l : List β) : UInt64 := l.foldl (fun h x => mixHash h (hash x)) 7
+
+/-- hash of the semantically relevant part of a state (ghost logs excluded) -/
+def stateHash (s : State) : UInt64 :=
+  let hT := (List.range s.nthreads).foldl (fun h t => match s.threads t with
+    | some th => mixHash h (mixHash (hashList th.stack) (mixHash (hash th.finished) (mixHash (hash th.retB)
+        (mixHash (hash th.retJob) (mixHash (hashList th.script) (hashList th.used))))))
+    | none => mixHash h 3) 11
+  let hS := (List.range 18).foldl (fun h σ => let g := s.sigs σ
+    mixHash h (mixHash (hash g.owner) (mixHash (hash g.signaled) (mixHash (hashList g.waiters) (mixHash (hash g.live) (hash g.gen)))))) 13
+  let hP := match s.pool with
+    | none => 17
+    | some p =>
+      let hR := (List.range p.ring.cap).foldl (fun h i => let sl := p.ring.slots i
+        mixHash h (mixHash (hash sl.data) (mixHash (hash sl.tailT) (hash sl.headT)))) (mixHash (hash p.ring.head) (hash p.ring.tail))
+      let hC := p.ctxs.foldl (fun h c => mixHash h (mixHash (hash c.id) (mixHash (hash c.tid) (hash c.terminated)))) 19
+      mixHash hR (mixHash hC (hashList [p.enq, p.deq, p.pushed, p.processed, p.threadCount, p.idleReset, p.nextCtx, (match p.mOwner with | some o => o + 1 | none => 0)]))
+  let hF := (List.range 16).foldl (fun h f => let x := s.futs f
+    mixHash h (mixHash (hash x.aborting) (mixHash (hash x.state) (mixHash (hash x.joinable) (hash x.result))))) 23
+  let hC := (List.range s.nextCall).foldl (fun h c => mixHash h (mixHash (hash (s.calls c).isSome) (mixHash (hash (s.execCount c)) (hash (s.freeCount c))))) 29
+  mixHash hT (mixHash hS (mixHash hP (mixHash hF (mixHash hC
+    (hashList [s.nthreads, s.tplock, s.nextCall, s.spurious, s.clockCalls, (if s.tp then 1 else 0)] + hashList s.clientTids)))))
+
+/-- frames whose step touches only thread-local state (explored eagerly: they commute with every other step) -/
+def Frame.isLocal : Frame → Bool
+  | .runStart _ | .runChk1 _ | .runPush2 _ | .runChk2 _ | .runSet | .wPop1 | .wChk1 | .wPop2 | .wChk2 | .wDeq
+  | .dChk1 _ | .dPush2 _ | .dChk2 _ | .dSet _ | .evJoined _ | .cStarted _ _ => true
+  | _ => false
+
+structure XStat where
+  states : Nat := 0
+  transitions : Nat := 0
+  deadlocks : Nat := 0
+  faults : Nat := 0
+  terminal : Nat := 0
+  doubleExec : Nat := 0
+  truncated : Bool := false
+  firstBad : Option (String × List Tid) := none
+
+def livePresent (s : State) : Bool :=
+  (List.range s.nthreads).any (fun t => match s.threads t with
+    | some th => !th.finished
+    | none => false)
+
+/-- depth-first exploration of all micro-step schedules (up to `maxStates` distinct states) -/
+partial def exploreLoop (maxStates : Nat) (stack : List (State × List Tid)) (seen : Std.HashSet UInt64) (st : XStat) : XStat :=
+  match stack with
+  | [] => st
+  | (s, path) :: rest =>
+    if st.states ≥ maxStates then { st with truncated := true } else
+    let ts := (List.range s.nthreads).filter (fun t => enabled s t)
+    -- a thread whose next step is purely local is taken alone (ample set)
+    let ts := match ts.find? (fun t => match s.threads t with
+        | some { stack := fr :: _, .. } => fr.isLocal
+        | _ => false) with
+      | some t => [t]
+      | none => ts
+    let st := if ts.isEmpty then
+        (if livePresent s then
+          { st with deadlocks := st.deadlocks + 1, firstBad := st.firstBad.orElse (fun _ => some ("deadlock", path.reverse)) }
+         else { st with terminal := st.terminal + 1 })
+      else st
+    let (stack', seen', st') := ts.foldl (fun (acc : List (State × List Tid) × Std.HashSet UInt64 × XStat) t =>
+      let (stk, seen, st) := acc
+      match step s t with
+      | none => acc
+      | some (s', _) =>
+        let st := { st with transitions := st.transitions + 1 }
+        let h := stateHash s'
+        if seen.contains h then (stk, seen, st)
+        else
+          let st := { st with states := st.states + 1 }
+          let st := if s'.fault.isSome then
+              { st with faults := st.faults + 1, firstBad := st.firstBad.orElse (fun _ => some ("fault " ++ s'.fault.getD "", (t :: path).reverse)) }
+            else st
+          let st := if (List.range s'.nextCall).any (fun c => s'.execCount c > 1 || s'.freeCount c > 1) then
+              { st with doubleExec := st.doubleExec + 1, firstBad := st.firstBad.orElse (fun _ => some ("double exec/free", (t :: path).reverse)) }
+            else st
+          let s'' := if (path.length + 1) % 64 = 0 then compact s' else s'
+          ((s'', t :: path) :: stk, seen.insert h, st)) (rest, seen, st)
+    exploreLoop maxStates stack' seen' st'
+
 def faultLines (s : State) : List String :=
   match s.fault with
   | some m => [s!"MODEL-FAULT {m}"]
@@ -171,6 +262,15 @@ def stepLine (d : DState) (ws : List String) : DState × String :=
         (d, "D " ++ " ".intercalate (live.map (fun t => s!"t{t}:{pendName s t}")) ++ s!"\nV DEADLOCK steps={d.steps}")
       else (d, s!"V RUNNING steps={d.steps}")
     | none => (d, "bad-op")
+  | "X" :: maxs :: rest =>
+    match parseCfg rest, maxs.toNat? with
+    | some cfg, some m =>
+      let r := exploreLoop m [(State.init cfg, [])] ({} : Std.HashSet UInt64) {}
+      let bad := match r.firstBad with
+        | some (w, p) => s!" first-bad={w} schedule={",".intercalate (p.map toString)}"
+        | none => ""
+      (d, s!"X states={r.states} transitions={r.transitions} terminal={r.terminal} deadlocks={r.deadlocks} faults={r.faults} double={r.doubleExec} truncated={if r.truncated then 1 else 0}{bad}")
+    | _, _ => (d, "bad-op")
   | ["M"] => (d, "M " ++ ",".intercalate (d.micro.reverse.map toString))
   | ["F"] =>
     match d.st with
